@@ -59,3 +59,14 @@ Theorem C07_judge_tu_cert_accepts_exactly_the_specification :
     TuModel.judge_tu_cert rec = 0%Z <-> JudgeComplete1.tu_cert_spec cfg m n M rc v sub.
 Proof. exact JudgeComplete1.judge_tu_cert_iff. Qed.
 Print Assumptions C07_judge_tu_cert_accepts_exactly_the_specification.
+
+(* ---------- the judge accepts EXACTLY the records that satisfy its specification (JudgeComplete3.v): completeness besides soundness,
+   a record of a correct answer is never rejected ---------- *)
+From Cmr Require JudgeComplete3.
+Theorem C07_judge_clisub_accepts_exactly_the_specification :
+    forall (rec : list Z) (tool variant infmt : Z) (inb : list Z) (rc : Z) (hasout : bool)
+    (outb rest : list Z),
+    CliProofs.clisub_input rec = Some (tool, variant, infmt, inb, rc, hasout, outb, rest) ->
+    CliModel.judge_clisub rec = 0%Z <-> JudgeComplete3.clisub_spec tool variant infmt inb rc hasout outb.
+Proof. exact JudgeComplete3.judge_clisub_iff. Qed.
+Print Assumptions C07_judge_clisub_accepts_exactly_the_specification.
